@@ -62,7 +62,7 @@ def allocating(prog, o, f, c):
 
 
 def r_prealloc(prog, R, rid="R-C14-PREALLOC"):
-    r = R.rule(rid, "growth routines allocate everything before they mutate; failure exits restore the size", floor=5, analysis="A-DOM ordering + A-VS")
+    r = R.rule(rid, "growth routines allocate everything before they mutate; failure exits restore the size", floor=7, analysis="A-DOM ordering + A-VS")
     o = ownrules.get_own(prog)
     specs = [
         ("ares_htable_expand",
@@ -75,6 +75,12 @@ def r_prealloc(prog, R, rid="R-C14-PREALLOC"):
         ("ares_slist_insert",
          lambda el: is_call_el(el, "ares_slist_node_push") or (el["k"] == "asg" and is_field(el["e"]["l"], "cnt", "ares_slist")),
          "linking the node"),
+        ("ares_buf_ensure_space",
+         lambda el: el["k"] == "asg" and any(n.get("k") == "mem" and n.get("rec") == "ares_buf" for n in [strip(el["e"]["l"])]),
+         "updating the buffer's capacity / pointers"),
+        ("ares_array_set_size",
+         lambda el: el["k"] == "asg" and any(n.get("k") == "mem" and n.get("rec") == "ares_array" for n in [strip(el["e"]["l"])]),
+         "updating the array's capacity / storage pointer"),
     ]
     for fname, is_mut, what in specs:
         f = prog.func(fname)
@@ -131,6 +137,221 @@ def r_prealloc(prog, R, rid="R-C14-PREALLOC"):
         r.ok("fn=ares_buf_ensure_space keeps-old-block-on-failure", g.loc(g.ln))
     else:
         r.viol("fn=ares_buf_ensure_space keeps-old-block-on-failure", g.name, g.loc(g.ln), "buf->alloc_buf is overwritten with an unchecked realloc result (old block lost on failure)")
+
+
+SETTLE_CALLS = ("ares_send_query", "end_query", "ares_free_query", "ares_requeue_query", "ares_append_requeue")
+
+
+def r_requeue(prog, R):
+    r = R.rule("R-C14-REQUEUE", "a request taken off its connection and timer is, on every path, re-sent, parked in the requeue array (the insertion succeeded) or completed; "
+               "every parked request is re-sent: the flush loop ends only when the array is empty", floor=4,
+               analysis="path search from every unlink with result-edge refinement + loop-exit vocabulary")
+    n = 0
+    # unlink primitives: the function itself plus void wrappers that unlink their own parameter and do nothing to settle it
+    unlink = {"ares_query_remove_from_conn"}
+    changed = True
+    while changed:
+        changed = False
+        for f in prog.funcs.values():
+            if f.name in unlink or f.name in SETTLE_CALLS or f.ret != "void" or not f.params:
+                continue
+            p0 = f.params[0]["n"]
+            cs = [c for _, _, c in f.calls() if c.get("callee") in unlink and c.get("args") and render(strip(c["args"][0])) == p0]
+            frees = any(c.get("callee") == "ares_free" and c.get("args") and render(strip(c["args"][0])) == p0 for _, _, c in f.calls())
+            if cs and not frees and not any(c.get("callee") in SETTLE_CALLS for _, _, c in f.calls()) and not any(c.get("fnx") is not None for _, _, c in f.calls()):
+                unlink.add(f.name)
+                changed = True
+    r.info["unlink_primitives"] = sorted(unlink)
+    for f in sorted(prog.funcs.values(), key=lambda x: x.key):
+        sites = f.calls_to(*unlink)
+        if not sites or f.name in unlink:
+            continue
+        ins = {}
+        for d in call_result_branches(f, "ares_array_insertdata_last", "ares_array_insert_last"):
+            okedge = None
+            if name_of_const(d["rhs"]) == "ARES_SUCCESS":
+                okedge = d["true"] if d["op"] == "==" else (d["false"] if d["op"] == "!=" else None)
+            if okedge is not None:
+                ins[d["block"].id] = okedge
+        for b, i, c in sites:
+            n += 1
+            q = render(strip(c["args"][0]))
+            k = "fn=%s request %s settled after being unlinked" % (f.name, q)
+
+            def settles(e2):
+                if e2["k"] != "call":
+                    # `return insert(...)`: handled below (not a settle)
+                    return False
+                cc = e2["e"]
+                return cc.get("callee") in SETTLE_CALLS + ("ares_free",) and any(a is not None and render(strip(a)) == q for a in cc.get("args", []))
+            seen, work, bad = set(), [(b.id, i + 1, [b.id])], None
+            while work and bad is None:
+                bid, st, trail = work.pop()
+                blk = f.blocks[bid]
+                stop = False
+                for j in range(st, len(blk.els)):
+                    e2 = blk.els[j]
+                    if settles(e2):
+                        stop = True
+                        break
+                    if e2["k"] == "ret":
+                        bad = (e2, trail)
+                        stop = True
+                        break
+                if stop:
+                    continue
+                for s2 in f.succ(bid):
+                    if bid in ins and s2 == ins[bid]:
+                        continue          # the request is parked: the insertion into the requeue array succeeded
+                    if s2 == f.exit:
+                        if f.ret == "void":
+                            bad = ({"ln": f.ln}, trail)
+                        continue
+                    if s2 not in seen:
+                        seen.add(s2)
+                        work.append((s2, 0, trail + [s2]))
+            if bad:
+                r.viol(k, f.name, f.loc(bad[0]), "%s unlinks %s from its connection and timeout list and can then return without re-sending it, parking it successfully or completing it (e.g. when adding it to the requeue array fails for lack of memory): the request is on no connection and has no timer, so it neither fails nor proceeds until the channel is cancelled or destroyed" % (f.name, q), trail=trail_lines(f, bad[1]))
+            else:
+                r.ok(k, f.loc(c["ln"]))
+    r.require(n >= 3, "fewer than 3 ares_query_remove_from_conn call sites")
+    # flush loop
+    ra = prog.func("read_answers")
+    scs = ra.calls_to("ares_send_query")
+    if r.require(bool(scs), "read_answers: deferred re-send not found"):
+        lp = None
+        for h, body in ra.natural_loops().items():
+            if scs[0][0].id in body and (lp is None or len(body) < len(lp[1])):
+                lp = (h, body)
+        if r.require(lp is not None, "read_answers: flush loop not found"):
+            h, body = lp
+            claim_blocks = {d["block"].id for d in call_result_branches(ra, "ares_array_claim_at", "ares_array_remove_first", "ares_array_claim_first")}
+            k = "read_answers re-sends every parked request"
+            bad = None
+            for bid in sorted(body):
+                for s2 in ra.succ(bid):
+                    if s2 in body:
+                        continue
+                    if bid == h:
+                        continue
+                    # an early exit: allowed only as the direct consequence of a failed claim
+                    preds_ok = bid in claim_blocks or (not ra.blocks[bid].els and all(p in claim_blocks for p in ra.blocks[bid].preds))
+                    if not preds_ok:
+                        bad = bid
+            if bad is not None:
+                blk = ra.blocks[bad]
+                r.viol(k, ra.name, ra.loc((blk.term or {}).get("ln", ra.ln)), "the loop that re-sends the parked requests can be left while requests are still parked (an exit other than 'array empty' / 'claim failed'): the remaining requests were already taken off their connection and timer and are dropped with the array -- they never complete")
+            else:
+                r.ok(k, ra.loc(scs[0][2]["ln"]))
+
+
+def _counted_arrays(prog):
+    """(record, array field) -> count field, taken from the release loops: `for (i < X->cnt) free(X->arr[i])`"""
+    pairs = {}
+    for f in prog.funcs.values():
+        for h, body in f.natural_loops().items():
+            bounds = []
+            for bid in body:
+                br = f.branch(bid)
+                if not br:
+                    continue
+                for c, p in atoms(br[0], True):
+                    op, l, rr = norm_cmp(c, p)
+                    rs = strip(rr) if rr is not None else None
+                    if op == "<" and rs is not None and rs.get("k") == "mem":
+                        bounds.append(rs)
+            if not bounds:
+                continue
+            for bid in body:
+                for el in f.blocks[bid].els:
+                    if el["k"] == "call" and el["e"].get("callee") in ("ares_free", "ares_free_string") and el["e"].get("args"):
+                        a = strip(el["e"]["args"][0])
+                        if a is not None and a.get("k") == "idx":
+                            ab = strip(a["b"])
+                            for rs in bounds:
+                                if ab is not None and ab.get("k") == "mem" and render(strip(ab["b"])) == render(strip(rs["b"])):
+                                    pairs[(ab["rec"], ab["f"])] = (rs["f"], f.name)
+    return pairs
+
+
+def r_counted(prog, R):
+    r = R.rule("R-C14-COUNTED", "an array of owned strings that is released up to a count field has that count set whenever it can hold a non-NULL element at a return: "
+               "a failure while filling it does not leave elements the release loop will not visit", floor=2,
+               analysis="release-loop inference of (array, count) pairs + path search store -> return with element-null edge refinement")
+    pairs = _counted_arrays(prog)
+    r.info["counted_arrays"] = {"%s.%s" % k: v[0] for k, v in pairs.items()}
+    if not r.require(("ares_channeldata", "domains") in pairs, "release loop of channel->domains not recognised"):
+        return
+    n = 0
+    for f in sorted(prog.funcs.values(), key=lambda x: x.key):
+        for b, i, el in f.elements():
+            if el["k"] != "asg" or el["e"]["op"] != "=":
+                continue
+            l = strip(el["e"]["l"])
+            if l is None or l.get("k") != "idx":
+                continue
+            ab = strip(l["b"])
+            if ab is None or ab.get("k") != "mem" or (ab.get("rec"), ab["f"]) not in pairs or is_null(el["e"].get("r")):
+                continue
+            cf = pairs[(ab["rec"], ab["f"])][0]
+            base = render(strip(ab["b"]))
+            arrt = render(ab)
+            n += 1
+            k = "fn=%s %s[%s] counted by %s->%s at every exit" % (f.name, arrt, render(strip(l["i"])), base, cf)
+
+            def is_cnt(e2):
+                if e2["k"] != "asg":
+                    return False
+                l2 = strip(e2["e"]["l"])
+                return l2 is not None and l2.get("k") == "mem" and l2["f"] == cf and render(strip(l2["b"])) == base
+            if can_reach_from_entry_avoiding(f, b, i, is_cnt) is None:
+                r.ok(k + " (count set before the fill)", f.loc(el))
+                continue
+            # from the store: state P (just stored, may be NULL) / Y (a non-NULL element is in the array)
+            seen, work, bad = set(), [(b.id, i + 1, "P", [b.id])], None
+            while work and bad is None:
+                bid, st0, state, trail = work.pop()
+                blk = f.blocks[bid]
+                stop = False
+                for j in range(st0, len(blk.els)):
+                    e2 = blk.els[j]
+                    if is_cnt(e2):
+                        stop = True
+                        break
+                    if e2["k"] == "ret":
+                        bad = (e2, trail)
+                        stop = True
+                        break
+                if stop:
+                    continue
+                br = f.branch(blk)
+                for s2 in f.succ(bid):
+                    st2 = state
+                    if br:
+                        pol = (br[1] == s2)
+                        for c3, p3 in atoms(br[0], pol):
+                            op, l3, r3 = norm_cmp(c3, p3)
+                            ls = strip(l3)
+                            if ls is not None and ls.get("k") == "idx" and render(strip(ls["b"])) == arrt:
+                                isnull = (op == "false") or (op == "==" and r3 is not None and is_null(r3))
+                                notnull = (op == "truth") or (op == "!=" and r3 is not None and is_null(r3))
+                                if isnull and st2 == "P":
+                                    st2 = None
+                                elif notnull:
+                                    st2 = "Y"
+                    if st2 is None:
+                        continue
+                    if s2 == f.exit:
+                        continue
+                    if (s2, st2) not in seen:
+                        seen.add((s2, st2))
+                        work.append((s2, 0, st2, trail + [s2]))
+            if bad:
+                r.viol(k, f.name, f.loc(bad[0]), "%s can return while %s holds strings that %s->%s does not cover yet (the count is only set after the fill): the release loop of %s frees 0..%s-1 and leaks them" % (
+                    f.name, arrt, base, cf, pairs[(ab["rec"], ab["f"])][1], cf), trail=trail_lines(f, bad[1]))
+            else:
+                r.ok(k, f.loc(el))
+    r.require(n >= 2, "fewer than 2 element stores into counted arrays")
 
 
 def r_allocpath(prog, R):
@@ -254,6 +475,8 @@ def run(prog, R, tier):
     ownrules.own_rule(prog, R, "R-C14-OWN", files, floor=40 if files else 120, include_contract=True)
     r_prealloc(prog, R)
     r_allocpath(prog, R)
+    r_requeue(prog, R)
+    r_counted(prog, R)
     r_allocout(prog, R)
     r_registered(prog, R)
     E = effects.Effects(prog)
